@@ -80,6 +80,7 @@ type CallRule struct {
 	Except   []string
 	Requires []*Clause
 	Ensures  []*Clause // scoped assumed postconditions of the callees (definitional ghost links)
+	Assigns  []string  // ghost fields the matched calls change
 	Props    []string
 	File     string
 	Line     int
@@ -366,6 +367,10 @@ func (cs *ContractSet) parseFile(path, pkg string) error {
 			}
 			cur.Names = strings.Fields(strings.ReplaceAll(rest, ",", " "))
 		case "assigns":
+			if curRule != nil {
+				curRule.Assigns = append(curRule.Assigns, splitList(rest)...)
+				continue
+			}
 			if cur == nil {
 				return fail("assigns outside func")
 			}
